@@ -1,1 +1,2 @@
 import PyndlProps.C01
+import PyndlProps.C13
